@@ -30,7 +30,7 @@ ASSUMPTIONS = ["nearest_neighbor_tcrdist runs against the vendored stand-in for 
                "custom distances are symmetric with d(x,x)=0, as the documented contract requires"]
 EXHAUSTIVE = False
 
-ENGINES = ["symdel", "symdel2", "symdeldb", "hash_based", "lookupdb", "kdtree"]
+ENGINES = ["symdel", "symdel2", "symdeldb", "hash_based", "lookupdb", "kdtree", "nearest_neighbor"]
 DATA = os.path.join(boot.REPO, "pyrepseq", "data")
 
 
